@@ -50,6 +50,9 @@ pub struct CbEntry {
     pub scenario: Option<String>,
     /// tracing: tokens of log events emitted by this callback.
     pub log_tokens: Vec<String>,
+    /// The fault fired in the synchronous part of the function (no future was returned).
+    #[serde(default)]
+    pub eager: bool,
 }
 
 #[derive(Debug)]
@@ -108,6 +111,9 @@ impl RunCtx {
         *e += 1;
         v
     }
+    fn peek_ordinal(&self, site: &str) -> usize {
+        self.ordinals.borrow().get(site).copied().unwrap_or(0)
+    }
     fn new_token(&self) -> String {
         let t = self.next_token.get();
         self.next_token.set(t + 1);
@@ -142,6 +148,45 @@ fn emit_log(tok: &str) {
 }
 #[cfg(not(feature = "tracing"))]
 fn emit_log(_tok: &str) {}
+
+/// Synchronous part of every user function: if the behaviour that the coming call will get says
+/// "panic eagerly", the call is recorded and panics here, before any future exists.
+fn eager_fault(kind: CbKind, site: &str, world: Option<&mut SimWorld>, scenario: Option<String>, finished_arg: Option<String>) {
+    let ctx = run_ctx();
+    let beh = ctx.plan.behaviour(site, ctx.peek_ordinal(site));
+    if !(beh.eager && beh.outcome.is_fault() && beh.outcome != Outcome::Err) {
+        return;
+    }
+    let ordinal = ctx.next_ordinal(site);
+    let now = ctx.core.now_ns();
+    ctx.core.progress();
+    let token = ctx.new_token();
+    let idx = {
+        let mut log = ctx.cb_log.borrow_mut();
+        log.push(CbEntry {
+            kind,
+            site: site.to_owned(),
+            ordinal,
+            world: world.as_ref().map(|w| w.id),
+            counter_on_entry: world.as_ref().map(|w| (w.counter, w.trail.len() as u64)),
+            enter: now,
+            exit: Some(now),
+            outcome: beh.outcome,
+            token: Some(token.clone()),
+            finished_arg,
+            scenario,
+            log_tokens: Vec::new(),
+            eager: true,
+        });
+        log.len() - 1
+    };
+    if let Some(w) = world {
+        w.trail.push(idx);
+        w.counter += 1;
+    }
+    ctx.max_in_callbacks.set(ctx.max_in_callbacks.get().max(ctx.in_callbacks.get() + 1));
+    fire(beh.outcome, &token);
+}
 
 struct InCb(Rc<RunCtx>);
 impl Drop for InCb {
@@ -178,6 +223,7 @@ async fn callback(
             finished_arg,
             scenario,
             log_tokens: Vec::new(),
+            eager: false,
         });
         log.len() - 1
     };
@@ -229,7 +275,16 @@ async fn callback(
 impl cucumber::World for SimWorld {
     type Error = String;
 
-    async fn new() -> Result<Self, String> {
+    // (deliberately not an `async fn`: the synchronous part may panic, see `eager_fault`)
+    #[allow(clippy::manual_async_fn)]
+    fn new() -> impl Future<Output = Result<Self, String>> {
+        eager_fault(CbKind::WorldNew, SITE_WORLD, None, None, None);
+        Self::new_async()
+    }
+}
+
+impl SimWorld {
+    async fn new_async() -> Result<Self, String> {
         let ctx = run_ctx();
         let ordinal = ctx.next_ordinal(SITE_WORLD);
         let beh = ctx.plan.behaviour(SITE_WORLD, ordinal);
@@ -250,6 +305,7 @@ impl cucumber::World for SimWorld {
                 finished_arg: None,
                 scenario: None,
                 log_tokens: Vec::new(),
+            eager: false,
             });
             log.len() - 1
         };
@@ -298,8 +354,9 @@ impl cucumber::World for SimWorld {
 }
 
 pub fn sim_step(w: &mut SimWorld, ctx: Context) -> LocalBoxFuture<'_, ()> {
+    let site = site_step(&ctx.step.value);
+    eager_fault(CbKind::Step, &site, Some(&mut *w), None, None);
     Box::pin(async move {
-        let site = site_step(&ctx.step.value);
         callback(CbKind::Step, site, Some(w), None, None).await;
     })
 }
@@ -310,6 +367,7 @@ pub fn before_fn<'a>(
     s: &'a gherkin::Scenario,
     w: &'a mut SimWorld,
 ) -> LocalBoxFuture<'a, ()> {
+    eager_fault(CbKind::Before, &site_before(&s.name), Some(&mut *w), Some(s.name.clone()), None);
     Box::pin(async move {
         callback(CbKind::Before, site_before(&s.name), Some(w), Some(s.name.clone()), None).await;
     })
@@ -336,6 +394,8 @@ pub fn after_fn<'a>(
     fin: &'a event::ScenarioFinished,
     w: Option<&'a mut SimWorld>,
 ) -> LocalBoxFuture<'a, ()> {
+    let mut w = w;
+    eager_fault(CbKind::After, &site_after(&s.name), w.as_deref_mut(), Some(s.name.clone()), Some(render_finished(fin)));
     Box::pin(async move {
         let arg = render_finished(fin);
         callback(CbKind::After, site_after(&s.name), w, Some(s.name.clone()), Some(arg)).await;
